@@ -9,7 +9,7 @@ from vf.xmodel import Schema, Rop, Bound, Outcome, build_api, build_loader
 
 SHARDS = {'quick': 16, 'thorough': 64}
 TIMEOUT = {'quick': 1200, 'thorough': 7200}
-MUST_HIT = ['Ambient.QueryRef.ambient-select', 'Ambient.QueryRef.ambient-select-non-empty', 'Ambient.QueryRef.ambient-navigation', 'Ambient.QueryRef.ambient-navigation-of-several-steps', 'Ambient.QueryRef.ambient-navigation-to-several', 'Ambient.Suite.tests-passed', 'EarlierObject.rechecked', 'QueryRef.select', 'QueryRef.navigate', 'QueryRef.subtype', 'QueryRef.two-hop',
+MUST_HIT = ['QueryRef.state-loaded-from-a-population', 'QueryRef.navigate-loaded', 'QueryRef.filter-on-referential-loaded', 'QueryRef.loaded-permuted-compound-keys', 'Ambient.QueryRef.ambient-select', 'Ambient.QueryRef.ambient-select-non-empty', 'Ambient.QueryRef.ambient-navigation', 'Ambient.QueryRef.ambient-navigation-of-several-steps', 'Ambient.QueryRef.ambient-navigation-to-several', 'Ambient.Suite.tests-passed', 'EarlierObject.rechecked', 'QueryRef.select', 'QueryRef.navigate', 'QueryRef.subtype', 'QueryRef.two-hop',
             'QueryRef.order_by-with-ties', 'QueryRef.set-valued-start', 'QueryRef.filter-covers-identifier', 'QueryRef.first-last', 'QueryRef.query-repeated',
             'QueryRef.attribute-assigned-between-queries', 'QueryRef.random-schema']
 MUST_REACH = ['xtuml/meta.py:apply_query_operators', 'xtuml/meta.py:WhereEqual.__call__',
@@ -464,6 +464,77 @@ def random_schema(rng, i):
             return Schema([(k, [(a, ty.upper()) for a, ty in at]) for k, at in s.classes], s.rops, s.uniques)
 
 
+class Mismatch(Exception):
+    def __init__(self, key, what):
+        Exception.__init__(self, what)
+        self.key = key
+        self.what = what
+
+
+def loaded_population_state(ctx, rng):
+    '''
+    A state reached by loading a whole population (random schema of vf/sqlgen: compound keys whose values are
+    permutations of each other, keys of equal hash value, key chains, shared referential attributes): navigation from
+    every instance and from the whole extent, in both directions, is the relational composition of the links that the
+    key join of the written rows defines; the single-result forms give a member of it or nothing; an equality filter on
+    the referential attributes selects the referring instances of that partner.
+    '''
+    import xtuml
+    from vf import sqlgen
+    from vf.checks import c03
+    schema = sqlgen.random_schema(rng, hostile_names=rng.random() < 0.3, max_classes=4)
+    if not schema.rops or c03.ambiguous(schema):
+        return False
+    pop, _ = sqlgen.resolved_population(rng, schema, max_inst=5)
+    expected = sqlgen.join(schema, pop)
+    stmts = sqlgen.schema_statements(schema) + [t for _, _, t in sqlgen.insert_statements(schema, pop, omit_unset=True)]
+    loader = xtuml.ModelLoader()
+    loader.input('\n'.join(stmts))
+    m = loader.build_metamodel(xtuml.IntegerGenerator())
+    ctx.hit('QueryRef.state-loaded-from-a-population')
+    referential = set((r.src, a) for r in schema.rops for a in r.src_keys)
+    for i, r in enumerate(schema.rops):
+        srcs, tgts = list(m.select_many(r.src)), list(m.select_many(r.tgt))
+        if len(srcs) != len(pop.rows[r.src]) or len(tgts) != len(pop.rows[r.tgt]):
+            raise Mismatch('loaded/extent', 'class extents differ from the rows written')
+        spos = dict((id(x), n) for n, x in enumerate(srcs))
+        tpos = dict((id(x), n) for n, x in enumerate(tgts))
+        for forward in (True, False):
+            froms, tos, topos = (srcs, tgts, tpos) if forward else (tgts, srcs, spos)
+            kind, phrase = (r.tgt, r.src_phrase) if forward else (r.src, r.tgt_phrase)
+            union = []
+            for n, inst in enumerate(froms):
+                want = set(t for s_, t in expected[i] if s_ == n) if forward else set(s_ for s_, t in expected[i] if t == n)
+                got = [topos[id(o)] for o in xtuml.navigate_many(inst).nav(kind, r.rel, phrase)()]
+                if len(got) != len(set(got)) or set(got) != want:
+                    raise Mismatch('loaded/navigate-many', '%s, row %d %s: navigation reaches rows %r, the key join of the rows '
+                                   'written says %r' % (r.describe(), n, 'forward' if forward else 'back', sorted(got), sorted(want)))
+                one = xtuml.navigate_any(inst).nav(kind, r.rel, phrase)()
+                if (one is None) != (not want) or (one is not None and topos[id(one)] not in want):
+                    raise Mismatch('loaded/navigate-any', '%s, row %d: the single-result form gives %r, the join %r'
+                                   % (r.describe(), n, one, sorted(want)))
+                union.extend(x for x in got if x not in union)
+                ctx.hit('QueryRef.navigate-loaded')
+            whole = [topos[id(o)] for o in xtuml.navigate_many(m.select_many(r.src if forward else r.tgt)).nav(kind, r.rel, phrase)()]
+            if whole != union:
+                raise Mismatch('loaded/navigate-from-set', '%s %s: from the whole extent %r, union of the per-instance results '
+                               'in encounter order %r' % (r.describe(), 'forward' if forward else 'back', whole, union))
+        # equality filter naming the referential attributes: the referring instances of one partner
+        if len(set(s_ for s_, _ in expected[i])) == len(expected[i]) and not any((r.tgt, k) in referential for k in r.tgt_keys):
+            shared = [a for a in r.src_keys if sum(1 for r2 in schema.rops if r2.src == r.src and a in r2.src_keys) > 1]
+            if not shared:
+                for ti in sorted(set(t for _, t in expected[i]))[:3]:
+                    flt = dict((a, pop.rows[r.tgt][ti][k]) for a, k in zip(r.src_keys, r.tgt_keys))
+                    got = sorted(spos[id(x)] for x in m.select_many(r.src, xtuml.where_eq(**flt))) \
+                        if not any(a in ('self', 'kind') for a in flt) else None
+                    want = sorted(s_ for s_, t in expected[i] if t == ti)
+                    if got is not None and got != want:
+                        raise Mismatch('loaded/filter-on-referential', '%s: where_eq(%r) selects rows %r, referring rows of '
+                                       'that partner %r' % (r.describe(), flt, got, want))
+                    ctx.hit('QueryRef.filter-on-referential-loaded')
+    return any(expected.values())
+
+
 def run(ctx):
     if ctx.shard == ctx.nshards - 1:
         # every selection and navigation the repository's own tests perform (prebuilder, text generator, interpreter,
@@ -474,6 +545,14 @@ def run(ctx):
     fixed = schema()
     fixed.fixed = True
     rng = ctx.rng
+    for i in range(ctx.share(1500 if ctx.tier == 'quick' else 60000)):
+        try:
+            nt = loaded_population_state(ctx, rng)
+            ctx.case(('loaded-population', ctx.shard, i), bool(nt))
+        except Mismatch as e:
+            ctx.violation(e.key, e.what, case=dict(part='loaded-population', shard=ctx.shard, n=i))
+    from vf import sqlgen as _sg
+    ctx.hit('QueryRef.loaded-permuted-compound-keys', _sg.PERMUTED_KEYS[0])
     nstates = ctx.share(3200 if ctx.tier == 'quick' else 64000)
     nq = 60 if ctx.tier == 'quick' else 120
     for i in range(nstates):
